@@ -513,21 +513,22 @@ func c13Registry(r *Run, ev *sizeEval) {
 	if reg == nil || cs == nil {
 		return
 	}
-	okMax := false
-	ast.Inspect(reg.Decl.Body, func(n ast.Node) bool {
-		ifs, ok := n.(*ast.IfStmt)
-		if !ok || ifs.Init == nil {
-			return true
+	// largestFixedSize after register = max(before, calculateSize(fn())), evaluated symbolically
+	// (if / min-max builtins / early assignment are all fine).
+	res := newResolver(r.L, info, reg.Decl)
+	recvName, fnName := "", ""
+	if reg.Decl.Recv != nil && len(reg.Decl.Recv.List[0].Names) == 1 {
+		recvName = reg.Decl.Recv.List[0].Names[0].Name
+	}
+	for _, f := range reg.Decl.Type.Params.List {
+		for _, nm := range f.Names {
+			if _, isSig := info.Defs[nm].Type().Underlying().(*types.Signature); isSig {
+				fnName = nm.Name
+			}
 		}
-		init := strings.ReplaceAll(r.L.str(ifs.Init), " ", "")
-		cond := strings.ReplaceAll(r.L.str(ifs.Cond), " ", "")
-		body := strings.ReplaceAll(r.L.str(ifs.Body), " ", "")
-		if strings.Contains(init, "calculateSize(fn())") && strings.Contains(cond, ">r.largestFixedSize") && strings.Contains(body, "r.largestFixedSize=size") {
-			okMax = true
-		}
-		return true
-	})
-	r.check(okMax, "r4", "register keeps the maximum fixed size", reg.Decl.Pos(), "largestFixedSize = max(calculateSize(fn()))", "register no longer maintains largestFixedSize as the maximum over all registered types")
+	}
+	okMax, whyMax := maxHoldsAtEnd(r.L, res, reg, recvName+".largestFixedSize", "calculateSize("+fnName+"())")
+	r.check(okMax, "r4", "register keeps the maximum fixed size", reg.Decl.Pos(), whyMax, "register no longer maintains largestFixedSize as the maximum over all registered types: "+whyMax)
 	hasFixed, hasEncode := false, false
 	ast.Inspect(cs.Decl.Body, func(n ast.Node) bool {
 		if c, ok := n.(*ast.CallExpr); ok {
@@ -573,12 +574,37 @@ func c13Client(r *Run, m *ServerModel, ev *sizeEval, needW, needR int64) {
 		nStores++
 		key := fmt.Sprintf("NewClient: payloadSize store #%d", nStores)
 		c, ok := unparen(as.Rhs[0]).(*ast.CallExpr)
+		// a helper that is a single expression (payloadSizeFor(c.messageSize)) stands for that expression
+		bind := map[types.Object]ast.Expr{}
+		if ok && calleeKey(info, c) != "p9.roundDown" {
+			if tf := r.L.FuncOf(callee(info, c)); tf != nil {
+				if body, isCall := unparen(exprFuncBody(tf.Decl)).(*ast.CallExpr); isCall {
+					idx := 0
+					for _, f := range tf.Decl.Type.Params.List {
+						for _, nm := range f.Names {
+							if idx < len(c.Args) {
+								bind[info.Defs[nm]] = c.Args[idx]
+							}
+							idx++
+						}
+					}
+					c = body
+				}
+			}
+		}
 		if !ok || calleeKey(info, c) != "p9.roundDown" || len(c.Args) != 2 {
 			r.fail("r4", key, as.Pos(), "payloadSize = %s is not roundDown(messageSize − overhead, align)", r.L.str(as.Rhs[0]))
 			continue
 		}
 		be, ok := unparen(c.Args[0]).(*ast.BinaryExpr)
-		if !ok || be.Op != token.SUB || !strings.HasSuffix(r.L.str(be.X), ".messageSize") {
+		minuend := ""
+		if ok {
+			minuend = r.L.str(be.X)
+			if a, bound := bind[objOf(info, be.X)]; bound {
+				minuend = r.L.str(a)
+			}
+		}
+		if !ok || be.Op != token.SUB || !strings.HasSuffix(minuend, ".messageSize") {
 			r.fail("r4", key, as.Pos(), "payloadSize is derived from %s, not from (c.messageSize − overhead)", r.L.str(c.Args[0]))
 			continue
 		}
